@@ -1025,7 +1025,16 @@ def rule_k(ctx: Context, R: Reporter):
         R.floor("C07.k", "returns of the wrapper's __call__", n_ret, 1)
 
 
+def rule_stateless(ctx: Context, R: Reporter):
+    """C07.l  the step object is a function of the state object it works on: no method other than the constructor stores
+    state-derived data in the step object for a later call to read back."""
+    from ..util import stateless_steps_rule
+
+    stateless_steps_rule(ctx, R, "C07.l", ("Resampler", "Mutator"), "the rows that the next resampling / mutation moves are rows of an earlier pool, not of the history the weights were computed for")
+
+
 def run(ctx: Context, R: Reporter):
+    R.guard(rule_stateless, ctx, R)
     R.guard(rule_k, ctx, R)
     R.guard(rule_i, ctx, R)
     R.guard(rule_j, ctx, R)
@@ -1077,6 +1086,8 @@ def variants():
         Variant("j-benign-guard-flipped-branches", "benign", replace_stmt(rs, "Resampler.run", "blobs = self.state.get_history('blobs', flat=True) if self.have_blobs else None", "blobs = None if not self.have_blobs else self.state.get_history('blobs', flat=True)")),
         Variant("benign-rename-mask", "benign", alpha_rename(mc, "BaseMCMCRunner.run", "mask_accept", "accepted"), quick=True),
         Variant("benign-rename-xprime", "benign", alpha_rename(mc, "BaseMCMCRunner.run", "x_prime", "xp")),
+        Variant("l-resampler-pool-cached", "bad", replace_stmt(rs, "Resampler.run", "u = self.state.get_history('u', flat=True)", "if getattr(self, '_u_pool', None) is None or len(self._u_pool) < len(weights):\n    self._u_pool = self.state.get_history('u', flat=True)\nu = self._u_pool"), ["C07.l"], quick=True),
+        Variant("l-benign-diagnostic-attribute", "benign", insert_after(rs, "Resampler.run", "u = self.state.get_history('u', flat=True)", "self._last_pool_size = len(u)")),
         Variant("benign-rename-idx", "benign", alpha_rename(rs, "Resampler.run", "idx_resampled", "picks"), quick=True),
         Variant("benign-rename-logl-prime", "benign", alpha_rename(mc, "BaseMCMCRunner.run", "logl_prime", "ll_new")),
     ]
